@@ -241,7 +241,9 @@ class Accept:
     # .acceptable_offers(), we re-use the media range regex for media types, as
     # they work out to have the exact same syntax according to RFC 7231.
     media_type_re = media_range_re
-    media_type_compiled_re = re.compile("^" + media_type_re + "$")
+    # \Z, not $: "$" also matches before a trailing newline, which would let
+    # an offer such as "text/html\n" through as a media type.
+    media_type_compiled_re = re.compile("^" + media_type_re + r"\Z")
 
     @classmethod
     def _escape_and_quote_parameter_value(cls, param_value):
